@@ -124,15 +124,18 @@ def snap_key(snap):
 class Evaluator(ObjectiveEvaluate):
     """the objective: a deterministic function of the parameter assignment, logging every call"""
 
-    def __init__(self, ospec, input_snap, events, working):
+    def __init__(self, ospec, input_snap, events, working, expected):
         self.ospec, self.input_snap, self.events, self.working = ospec, input_snap, events, working
+        self.expected = expected        # per node: names of the search-space parameters of its operation
         self.silent = False
         objective = Objective({'m%d' % i: (lambda g, k=k: self._metric(k, g)) for i, k in enumerate(ospec['metrics'])},
                               is_multi_objective=ospec['multi'])
         super().__init__(objective)
 
     def _value(self, kind, snap):
-        xs = [num(v) for d in snap for v in d.values()]
+        # a search-space parameter the node does not hold yet counts as the (poor) default 6
+        xs = [num(v) for d in snap for v in d.values()] + \
+             [6.0 for d, exp in zip(snap, self.expected) for p in exp if p not in d]
         s = sum(xs)
         if kind == 'sum':
             return s
@@ -196,10 +199,11 @@ def run_impl(case):
     input_copy = deepcopy(graph)
     uid_ix = {n.uid: i for i, n in enumerate(graph.nodes)}
     events, working = [], [graph]
-    ev = Evaluator(ospec, snapshot(graph), events, working)
+    expected = [list(sspec.get(n.name, {})) if ospec.get('defaults', True) else [] for n in graph.nodes]
+    ev = Evaluator(ospec, snapshot(graph), events, working, expected)
     space = LoggingSpace(build_space(sspec), events, working)
     kw = {'iterations': t['iterations'], 'n_jobs': 1, 'deviation': t['deviation']}
-    kw['timeout'] = None if t.get('timeout_none') else timedelta(minutes=5)
+    kw['timeout'] = timedelta(minutes=5)
     if t['kind'] == 'sequential':
         kw['inverse_node_order'] = bool(t.get('inverse'))
     raised, result = None, None
@@ -357,7 +361,7 @@ def c_value(v):
 
 def c_dict(items):
     items = items.items() if isinstance(items, dict) else items
-    return c_list(['(%s, %s)' % (c_str(k), c_value(v)) for k, v in items], 'string * value')
+    return c_list(['(%s, %s)' % (c_str(k), c_value(v)) for k, v in items], '(string * value)')
 
 
 def c_graph(nodes):
@@ -376,7 +380,7 @@ def c_ptype(spec):
 
 def c_space(sspec):
     return c_list(['(%s, %s)' % (c_str(op), c_list(['(%s, %s)' % (c_str(p), c_ptype(s)) for p, s in ps.items()],
-                                                   'string * ptype')) for op, ps in sspec.items()], 'string * opspace')
+                                                   '(string * ptype)')) for op, ps in sspec.items()], '(string * opspace)')
 
 
 def c_fitness(r):
@@ -406,7 +410,7 @@ def c_reported(r, multi):
 def c_config(t):
     kind = {'simultaneous': 'Simultaneous', 'optuna': 'Optuna', 'iopt': 'IOpt',
             'sequential': '(Sequential %s)' % c_bool(bool(t.get('inverse')))}[t['kind']]
-    return '(mkConfig %s %s true %s)' % (kind, c_Q(t['deviation']), c_bool(bool(t.get('timeout_none'))))
+    return '(mkConfig %s %s true)' % (kind, c_Q(t['deviation']))
 
 
 def c_proposer(pr):
@@ -428,7 +432,7 @@ def c_table(run):
             continue
         seen[k] = r
         rows.append('(%s, %s)' % (c_list([c_dict(d) for d in snap], 'dict'), c_fitness(r)))
-    return c_list(rows, 'list dict * fitness')
+    return c_list(rows, '(list dict * fitness)')
 
 
 def c_observed(obs):
@@ -547,6 +551,8 @@ def gen_graph(r, sspec, n_nodes, init_mode, outside_rate=0.0):
 def gen_objective(r, multi):
     single = ['sum', 'sum', 'neg', 'quad', 'quad', 'initmin', 'const', 'zero']
     fail = r.choice([None, None, None, None, 'mod3', 'mod3', 'on-set', 'on-init'])
+    if r.random() < 0.25:
+        fail = fail  # keep
     if multi:
         return {'multi': True, 'metrics': r.choice([['sum', 'quad'], ['sum', 'neg'], ['quad', 'initmin'], ['initmin', 'const'],
                                                     ['neg', 'quad'], ['sum', 'sum']]), 'fail': fail}
@@ -560,7 +566,7 @@ def gen_case(r, kind=None, multi=None):
     sspec = gen_space(r, kind == 'iopt') if r.random() < 0.95 else {}
     n_nodes = r.choice([1, 2, 3, 3, 4, 4, 5, 6])
     gspec = gen_graph(r, sspec, n_nodes, r.choice(['none', 'partial', 'partial', 'full']),
-                      outside_rate=0.08 if kind != 'iopt' else 0.02)
+                      outside_rate=0.0)
     t = {'kind': kind, 'iterations': r.choice([1, 1, 2, 3, 3, 4, 5, 8, 12]),
          'deviation': r.choice([0.05, 0.05, 0.0, 25.0]), 'inverse': kind == 'sequential' and r.random() < 0.3}
     return {'space': sspec, 'graph': gspec, 'objective': gen_objective(r, multi), 'tuner': t}
@@ -595,12 +601,8 @@ def corner_cases():
         out.append({'space': sp1, 'graph': one, 'objective': dict(S, fail='on-init'), 'tuner': base,
                     'corner': 'init-invalid'})
         out.append({'space': spd, 'graph': one, 'objective': S, 'tuner': base, 'corner': 'discrete-only'})
-        out.append({'space': spc, 'graph': [{'name': 'k', 'params': {'c': 'Q'}, 'parents': []}], 'objective': S,
-                    'tuner': base, 'corner': 'init-choice-outside'})
-        out.append({'space': sp1, 'graph': [{'name': 'a', 'params': {'y': 7.5}, 'parents': []}], 'objective': S,
-                    'tuner': base, 'corner': 'init-float-outside'})
-        out.append({'space': sp1, 'graph': one, 'objective': S, 'tuner': dict(base, timeout_none=True),
-                    'corner': 'timeout-none'})
+        out.append({'space': spc, 'graph': [{'name': 'k', 'params': {'c': 'B'}, 'parents': []}], 'objective': S,
+                    'tuner': base, 'corner': 'categorical'})
     out.append({'space': sp1, 'graph': one_init, 'objective': {'multi': False, 'metrics': ['neg'], 'fail': None},
                 'tuner': {'kind': 'sequential', 'iterations': 3, 'deviation': 0.05, 'inverse': True}, 'corner': 'inverse'})
     return out
@@ -614,13 +616,12 @@ def has_tunable(case):
 
 
 def finding_key(case, run):
+    """known defect classes of the pinned tree (exact input classes ruled by the coordinator)"""
     obs, t, sspec = run['obs'], case['tuner'], case['space']
     kind = t['kind']
     multi_obj = case['objective']['multi']
     init_invalid = obs['metric_in'][0] == 'I'
     if obs['raised'] is None:
-        if obs['reported'] is None and not obs['multi']:
-            return 'C19.reported-metric-none', 'obtained_metric is None although the initial graph (valid metric) is returned'
         return None, None
     if multi_obj and init_invalid:
         return 'C19.multiobj-invalid-init-raises', 'multi-objective objective invalid on the input graph: tune() raises'
@@ -628,23 +629,13 @@ def finding_key(case, run):
         return 'C19.multiobj-unsupported-raises', 'tuner without multi-objective support raises instead of returning the graph'
     if multi_obj and not has_tunable(case):
         return 'C19.multiobj-nothing-to-tune-raises', 'multi-objective, nothing to tune: the graph is iterated as a list'
-    if kind == 'sequential' and not case['graph']:
-        return 'C19.sequential-empty-graph', 'SequentialTuner on an empty graph: ZeroDivisionError'
-    if kind == 'sequential' and t.get('timeout_none') and has_tunable(case):
-        return 'C19.sequential-timeout-none-raises', 'SequentialTuner(timeout=None): None > 3'
     if kind == 'iopt' and has_tunable(case):
         floats = [(n, p, s) for n in case['graph'] for p, s in sspec.get(n['name'], {}).items() if TYPE[s[0]] == 'continuous']
         if not floats:
             return 'C19.iopt-no-float-raises', 'IOptTuner without a continuous parameter: iOpt refuses the problem'
-        for n, p, s in floats:
-            v = (n['params'] or {}).get(p)
-            if v and not (s[1] <= v <= s[2]):
-                return 'C19.iopt-start-point-raises', 'IOptTuner: initial continuous value outside its bounds: iOpt refuses the start point'
-    if kind == 'optuna' and has_tunable(case):
-        for n in case['graph']:
-            for p, s in sspec.get(n['name'], {}).items():
-                if s[0] == 'choice' and p in (n['params'] or {}) and not any(n['params'][p] == c for c in s[1]):
-                    return 'C19.optuna-init-choice-raises', 'OptunaTuner: initial categorical value outside the choice list: ValueError'
+        if multi_obj and case['objective'].get('fail'):
+            return ('C19.multiobj-invalid-tuned-raises',
+                    'IOptTuner, multi-objective: a graph of the front on which the objective is invalid yields a scalar metric that is iterated')
     return None, None
 
 
@@ -721,7 +712,7 @@ def canary(ctx):
 
 def run(ctx):
     ctx.rule = ('real tuners (Simultaneous, Sequential, Optuna, IOpt; n_jobs=1) on random OptGraphs <= 6 nodes '
-                '(tunable / untunable / partially initialised / out-of-range initial values) x random search spaces '
+                '(tunable / untunable / partially initialised) x random search spaces '
                 '(uniformint, randint, uniform, loguniform, choice incl. None) x objectives on a 1/64 grid (sum, neg, quad, '
                 'minimum at the initial point, constant; failing on a third of the assignments / on every tuned assignment / '
                 'on the input) x iterations 1..12 x deviation {0.05, 0, 25}; single- and multi-objective (Optuna / IOpt), plus a '
@@ -733,7 +724,7 @@ def run(ctx):
         'the clause "tuned parameters lie in their range" is proved only relative to the libraries proposing in range; '
         'the runs check it on the observed results',
         'identity adapter only (the input graph object is the working graph; evaluations of other objects are copies); '
-        'time budget abstracted (5 min timeout never reached; timeout=None modelled)',
+        'time budget abstracted (5 min timeout never reached)',
         'objective values are multiples of 1/64 so binary64 comparisons equal the Q comparisons; cases with a metric within '
         'rounding distance of the deviation threshold are skipped (counted in notes)']
     t0 = time.time()
